@@ -96,6 +96,20 @@ class Engine:
             self.solver.add(v <= hi)
         return SymInt(v)
 
+    def fresh_aux(self, name: str, lo: int | None = None, hi: int | None = None) -> 'SymInt':
+        """an auxiliary symbolic value created inside `run` (e.g. the result of a stubbed call); it is constrained
+        with `assume`, so it is part of the path condition, and named by order of creation on the path"""
+        self._aux_n = getattr(self, '_aux_n', 0) + 1
+        v = z3.BitVec('%s#%d' % (name, self._aux_n), self.W)
+        c = []
+        if lo is not None:
+            c.append(v >= lo)
+        if hi is not None:
+            c.append(v <= hi)
+        if c:
+            self.assume(z3.And(*c))
+        return SymInt(v)
+
     def _ensure_model(self):
         if self.model is None:
             r = self.check()
@@ -277,6 +291,7 @@ def explore(run, setup, *, W: int = 64, bl_max: int | None = None, max_paths: in
                 eng.notes.append('deadline reached'); eng.unknown += 1
                 break
             eng.pos = 0
+            eng._aux_n = 0
             eng.oblig = []; eng.oblig_tags = []
             eng.in_setup = True
             eng.setup_replay = not first
